@@ -38,7 +38,7 @@ LANGS = ['darr', 'idl', 'julia_ver0', 'julia_ver1', 'mathematica', 'matlab', 'ma
 FOREIGN = ['idl', 'julia_ver0', 'julia_ver1', 'mathematica', 'matlab', 'maple', 'R', 'scilab']
 SHAPES = [(5,), (1,), (2, 3), (3, 1), (1, 4), (2, 3, 4), (4, 1, 2), (2, 3, 4, 5), (1, 2, 1, 3)]
 PATHMODES = ['rel', 'base', 'abs']
-MUST_HIT = ['call:positional-arguments', 'after-history-on-live-handle', 'churn:ask-trunc-ask', 'churn:ask-append-ask', 'path:base-via-symlink-dotdot', 'path:via-symlink-dotdot', 'path:handle-opened-by-relative-path'] + ['lang:' + l for l in LANGS] + ['path:' + p for p in PATHMODES] + ['offer-table', 'withheld', 'empty-array', 'rank:1', 'rank:2',
+MUST_HIT = ['basepath:os.PathLike-object', 'churn:change-and-ask-inside-context', 'call:positional-arguments', 'after-history-on-live-handle', 'churn:ask-trunc-ask', 'churn:ask-append-ask', 'path:base-via-symlink-dotdot', 'path:via-symlink-dotdot', 'path:handle-opened-by-relative-path'] + ['lang:' + l for l in LANGS] + ['path:' + p for p in PATHMODES] + ['offer-table', 'withheld', 'empty-array', 'rank:1', 'rank:2',
                                                                               'rank:3', 'rank:4', 'complex', 'float16', 'bigendian']
 COLUMN = {'IDL': ['idl'], 'Julia': ['julia_ver0', 'julia_ver1'], 'Maple': ['maple'], 'Mathematica': ['mathematica'], 'Matlab': ['matlab'],
           'Numpy': ['numpy', 'numpymemmap'], 'Python': ['python'], 'R': ['R'], 'Scilab': ['scilab']}
@@ -228,7 +228,15 @@ def _exec_prog(ctx, spec):
             darr.asarray(os.path.join(root, 'deep', 'x.darr'), ref[::-1].copy() if ref.shape[0] > 1 else ref + 1)
             basepath = 'deep/sl/../x.darr'
         import pathlib
-        bparg = {0: basepath, 1: pathlib.Path(basepath), 2: basepath + '/'}[spec.get('seed', 1) % 3]
+        class _FsPath:          # an os.PathLike that is neither str nor Path (its str() is NOT its path)
+            def __init__(self, p_):
+                self._p = p_
+
+            def __fspath__(self):
+                return self._p
+        bparg = {0: basepath, 1: pathlib.Path(basepath), 2: basepath + '/', 3: _FsPath(basepath), 4: pathlib.PurePosixPath(basepath)}[spec.get('seed', 1) % 5]
+        if spec.get('seed', 1) % 5 == 3 and pm == 'base':
+            out.cls('basepath:os.PathLike-object')
         churn = spec.get('churn')
         churn = 'grow-shrink-grow' if churn is True else churn
         pargs = dict(abspath=(pm == 'abs'), basepath=(bparg if pm == 'base' else None))    # exactly the final question
@@ -247,6 +255,15 @@ def _exec_prog(ctx, spec):
             a.readcode(lang, **pargs)
             a.readcodelanguages
             darr.truncate_array(a, shape[0])
+        elif churn == 'change-and-ask-inside-context' and shape[0] >= 2:
+            # inside one open_array() block the array grows (or shrinks) and the code is requested there, through the same handle
+            out.cls('after-history-on-live-handle', 'churn:change-and-ask-inside-context')
+            a = darr.asarray(apath, ref[:1], accessmode='r+')
+            inside_code = None
+            with a.open_array():
+                a.readcode(lang, **pargs)
+                a.append(ref[1:])
+                inside_code = a.readcode(lang, **pargs)
         elif churn == 'ask-append-ask' and shape[0] >= 2:
             out.cls('after-history-on-live-handle', 'churn:ask-append-ask')
             a = darr.asarray(apath, ref[:1], accessmode='r+')
@@ -280,6 +297,9 @@ def _exec_prog(ctx, spec):
             code = a.readcode(lang, abspath=(pm == 'abs'), basepath=(bparg if pm == 'base' else None))
         if spec.get('via') == 'relative':
             code = relcode        # generated while the working directory was the one the relative path refers to
+        elif churn == 'change-and-ask-inside-context' and shape[0] >= 2 and inside_code != code:
+            out.viol('code-differs-inside-context', f'{lang}:{pm}', 'readcode() asked inside the open_array() block in which the array grew differs from the one asked afterwards')
+            code = inside_code
         if code is None:
             out.nontrivial = False
             return out
@@ -379,7 +399,7 @@ def prog_specs(seeds=(1,)):
     for t, shape, lang in itertools.product(NUMTYPES, [(4,), (3, 2)], LANGS):
         yield {'f': 'prog', 't': t, 'bo': '>', 'shape': list(shape), 'lang': lang, 'pm': 'rel', 'seed': 1, 'churn': True}
     for t, shape, lang, pm, churn in itertools.product(['int32', 'float16', 'complex128'], [(4,), (3, 2)], LANGS, PATHMODES,
-                                                       ['ask-trunc-ask', 'ask-append-ask']):
+                                                       ['ask-trunc-ask', 'ask-append-ask', 'change-and-ask-inside-context']):
         yield {'f': 'prog', 't': t, 'bo': '<', 'shape': list(shape), 'lang': lang, 'pm': pm, 'seed': 4, 'churn': churn}
     for t, shape, lang in itertools.product(['int16', 'float64', 'complex64'], [(3,), (3, 2)], LANGS):
         yield {'f': 'prog', 't': t, 'bo': '<', 'shape': list(shape), 'lang': lang, 'pm': 'base', 'seed': 2, 'via': 'base-symlink-dotdot'}
@@ -401,7 +421,7 @@ def st_prog(draw):
     rank = draw(st.integers(1, 4))
     return {'f': 'prog', 't': draw(st.sampled_from(NUMTYPES)), 'bo': draw(st.sampled_from('<>')),
             'shape': [draw(st.integers(1, 6)) for _ in range(rank)], 'lang': draw(st.sampled_from(LANGS)),
-            'pm': draw(st.sampled_from(PATHMODES)), 'seed': draw(st.integers(0, 2 ** 20)), 'churn': draw(st.sampled_from([None, None, True, 'ask-trunc-ask', 'ask-append-ask'])),
+            'pm': draw(st.sampled_from(PATHMODES)), 'seed': draw(st.integers(0, 2 ** 20)), 'churn': draw(st.sampled_from([None, None, True, 'ask-trunc-ask', 'ask-append-ask', 'change-and-ask-inside-context'])),
             'via': draw(st.sampled_from([None, None, 'symlink-dotdot', 'relative', 'base-symlink-dotdot']))}
 
 
